@@ -29,6 +29,11 @@ def gen_weights(rng: random.Random, n: int, zeros: bool = True) -> list[float]:
             w[i] = 0.0
         if sum(w) <= 0:
             w[rng.randrange(n)] = 1.0
+    if zeros and n > 1 and rng.random() < 0.12:
+        # non-zero but tiny: such an entry is *not* a zero weight
+        i = rng.randrange(n)
+        if sum(1 for v in w if v > 1e-6) > 1 or w[i] <= 1e-6:
+            w[i] = 1e-9
     return w
 
 
